@@ -56,8 +56,8 @@ def check_mc_case(case):
         def bad(kind, what, attrs=None):
             a = {'logic': logic}
             a.update(attrs or {})
-            fails.append((kind, '%s: %s.modelcheck(Kripke(S=%r,R=%r,L=%r), %s)'
-                          % (what, logic, kdata[0], kdata[1], kdata[2], trees.to_text(t)), a,
+            fails.append((kind, '%s: %s.modelcheck(%s, %s)'
+                          % (what, logic, gen.ktext(kdata), trees.to_text(t)), a,
                           (logic, kdata, [t], opts)))
         f = trees.build(L, t)
         printed = str(f)
@@ -145,7 +145,7 @@ def check_fresh_case(case):
         attrs = {'logic': logic, 'none_state': has_none, 'fresh_atom_collision': collision}
 
         def bad(kind, what):
-            fails.append((kind, '%s: %s.modelcheck(Kripke(S=%r,R=%r,L=%r), %s)' % (what, logic, kdata[0], kdata[1], kdata[2], t),
+            fails.append((kind, '%s: %s.modelcheck(%s, %s)' % (what, logic, gen.ktext(kdata), t),
                           dict(attrs), (logic, kdata, [t])))
         f = trees.build(L, t)
         snap = deep_snapshot(K)
@@ -259,7 +259,7 @@ def check_purity_case(case):
 
     def describe(q):
         kd = Ks[q['ki']][0]
-        return '%s.modelcheck(Kripke(S=%r,R=%r,L=%r), %s%s, F=%r)' % (q['logic'], kd[0], kd[1], kd[2], trees.to_text(q['t']),
+        return '%s.modelcheck(%s, %s%s, F=%r)' % (q['logic'], gen.ktext(kd), trees.to_text(q['t']),
                                                                      ' [text]' if isinstance(q['arg'], str) else '', q['Fcopy'])
 
     def run(q):
@@ -375,8 +375,8 @@ def check_presentation_case(case):
                 got = set(s for s in got if s in restrict)
             if r[0] != 'ok' or got != exp:
                 fails.append(('presentation:' + name,
-                              '%s changes the answer of %s.modelcheck(Kripke(S=%r,R=%r,L=%r), %s): %r instead of %r (variant structure S=%r,R=%r,L=%r)'
-                              % (name, logic, S, R, Lab, trees.to_text(t), r[1:] if r[0] != 'ok' else got, exp, kd2[0], kd2[1], kd2[2]),
+                              '%s changes the answer of %s.modelcheck(%s, %s): %r instead of %r (variant structure S=%r,R=%r,L=%r)'
+                              % (name, logic, gen.ktext(kdata), trees.to_text(t), r[1:] if r[0] != 'ok' else got, exp, kd2[0], kd2[1], kd2[2]),
                               {'logic': logic, 'variant': name}, (logic, kdata, [t], seed)))
     # with fairness constraints: only the atom renamings are compared (same states in the same order: what the
     # library computes under fairness is known to depend on the order of the states, KF-C15-1)
@@ -399,8 +399,8 @@ def check_presentation_case(case):
                     absent = any(a not in used for a in _tree_atoms(t2))
                     if r[0] != 'ok' or r[1] != base[1]:
                         fails.append(('presentation:' + name + ':fair',
-                                      '%s changes the answer of %s.modelcheck(Kripke(S=%r,R=%r,L=%r), %s, F=%r): %r instead of %r'
-                                      % (name, logic, S, R, Lab, trees.to_text(t), [sorted(P, key=repr) for P in F],
+                                      '%s changes the answer of %s.modelcheck(%s, %s, F=%r): %r instead of %r'
+                                      % (name, logic, gen.ktext(kdata), trees.to_text(t), [sorted(P, key=repr) for P in F],
                                          r[1:] if r[0] != 'ok' else r[1], base[1]),
                                       {'logic': logic, 'variant': name + ':fair', 'formula_atom_absent_from_labels': absent},
                                       (logic, kdata, [t], seed)))
@@ -474,8 +474,8 @@ def check_hashseed_case(case):
         keys.add((bseed, i, hseed))
         if a != b:
             logic, kd, t = items[i]
-            fails.append(('presentation:hash-seed', 'PYTHONHASHSEED=%d gives %r, PYTHONHASHSEED=%s gives %r for %s.modelcheck(Kripke(S=%r,R=%r,L=%r), %s)'
-                          % (hseed, b, os.environ.get('PYTHONHASHSEED'), a, logic, kd[0], kd[1], kd[2], trees.to_text(t)),
+            fails.append(('presentation:hash-seed', 'PYTHONHASHSEED=%d gives %r, PYTHONHASHSEED=%s gives %r for %s.modelcheck(%s, %s)'
+                          % (hseed, b, os.environ.get('PYTHONHASHSEED'), a, logic, gen.ktext(kd), trees.to_text(t)),
                           {'logic': logic, 'variant': 'hash-seed'}))
     return {'fails': fails, 'n': len(mine), 'keys': keys}
 
@@ -499,7 +499,7 @@ def check_laws_case(case):
     S = set(K.states())
 
     def bad(kind, what, rep):
-        fails.append((kind, '%s on Kripke(S=%r,R=%r,L=%r)' % (what, kdata[0], kdata[1], kdata[2]), {'law': kind}, rep))
+        fails.append((kind, '%s on %s' % (what, gen.ktext(kdata)), {'law': kind}, rep))
 
     def val(logic, t, as_text=False):
         r = _mc(logic, K, t, as_text)
